@@ -365,6 +365,8 @@ impl RADAU {
 
         // --- Main integration loop ---
         'main: loop {
+            #[cfg(feature = "verif")]
+            crate::verif::tick(crate::verif::RADAU_MAIN);
             if call_jac {
                 // Jacobian and mass at (x, y)
                 f.jac(x, &y, &mut jac);
@@ -388,6 +390,8 @@ impl RADAU {
                 // LU decomp of real matrix E1
                 evals.lu += 1;
                 if lu_decomp(&mut e1, &mut ip1).is_err() {
+                    #[cfg(feature = "verif")]
+                    crate::verif::tick(crate::verif::RADAU_LU_SINGULAR);
                     singular_count += 1;
                     if singular_count > 5 {
                         status = Status::SingularMatrix;
@@ -403,6 +407,8 @@ impl RADAU {
                 // LU decomp of complex matrix E2
                 evals.lu += 1;
                 if lu_decomp_complex(&mut e2r, &mut e2i, &mut ip2).is_err() {
+                    #[cfg(feature = "verif")]
+                    crate::verif::tick(crate::verif::RADAU_LU_SINGULAR);
                     singular_count += 1;
                     if singular_count > 5 {
                         status = Status::SingularMatrix;
@@ -479,7 +485,11 @@ impl RADAU {
             theta = thet.abs();
             let mut newt_iter = 0;
             'newton: loop {
+                #[cfg(feature = "verif")]
+                crate::verif::tick(crate::verif::RADAU_NEWTON);
                 if newt_iter >= max_newton {
+                    #[cfg(feature = "verif")]
+                    crate::verif::tick(crate::verif::RADAU_NEWTON_RETRY);
                     singular_count += 1;
                     if singular_count > 5 {
                         status = Status::SingularMatrix;
@@ -581,6 +591,8 @@ impl RADAU {
                         }
                     } else {
                         // Unexpected step rejection - continue with reduced step
+                        #[cfg(feature = "verif")]
+                        crate::verif::tick(crate::verif::RADAU_NEWTON_RETRY);
                         singular_count += 1;
                         if singular_count > 5 {
                             status = Status::SingularMatrix;
@@ -765,6 +777,8 @@ impl RADAU {
                     qt = hnew / h;
                     hhfac = h;
                     if theta < thet && qt > quot1 && qt < quot2 {
+                        #[cfg(feature = "verif")]
+                        crate::verif::tick(crate::verif::RADAU_REUSE_LU);
                         call_decomp = false;
                         call_jac = false;
                         continue 'main;
@@ -776,6 +790,8 @@ impl RADAU {
                 call_jac = theta >= thet;
             } else {
                 // --- Step rejected ---
+                #[cfg(feature = "verif")]
+                crate::verif::tick(crate::verif::RADAU_REJECT);
                 reject = true;
                 call_decomp = true;
                 last = false;
